@@ -135,6 +135,7 @@ def same_state(a, b):
 
 def reg_for(pre, slot, stamp):
     cur = pre['slots'][slot - 1]['stamp']
+    if cur < 0 and stamp == cur: return 'g%d' % slot          # the id the arena reports for the removed node (get_node_id)
     if cur >= 0 or gen_of(cur) == stamp: return 's%d' % slot
     return 'o%d_%d' % (slot, stamp)
 
@@ -154,8 +155,11 @@ def replay_mutator(viol, profile):
     for k in ('t', 'x'):
         if k in args:
             cur = pre['slots'][args[k] - 1]['stamp']
-            if cur < 0 and gen_of(cur) != args[k + '_stamp']: old.append((args[k], args[k + '_stamp']))
+            if cur < 0 and gen_of(cur) != args[k + '_stamp'] and args[k + '_stamp'] >= 0: old.append((args[k], args[k + '_stamp']))
     lines = construct_script(pre, old)
+    # ids that the arena itself hands out for removed nodes
+    ghosts = ['ghost g%d s%d' % (args[k], args[k]) for k in ('t', 'x') if k in args and pre['slots'][args[k] - 1]['stamp'] < 0 and args[k + '_stamp'] == pre['slots'][args[k] - 1]['stamp']]
+    lines = lines[:-2] + sorted(set(ghosts)) + lines[-2:]
     n0 = len(lines)
     lines += [op_line(op, args, pre), 'dump', 'drops']
     res = run_script(lines, profile)
